@@ -338,6 +338,9 @@ Proof.
   - (* MTxSelect *) destruct (fx_not_impl fx); exact H.
   - (* MConnClose *) exact H.
   - (* MConnCloseOk *) exact H.
+  - (* MStartOk *) destruct good; [cbn [fst]; eapply allq_same_queues; [apply queues_set_stage|exact H]|exact H].
+  - (* MTuneOk *) destruct within; [cbn [fst]; eapply allq_same_queues; [apply queues_set_stage|exact H]|exact H].
+  - (* MConnOpen *) destruct vhost_ok; [cbn [fst]; eapply allq_same_queues; [apply queues_set_stage|exact H]|exact H].
 Qed.
 
 (* ---- teardown, step, run ---- *)
@@ -368,16 +371,25 @@ Proof.
   apply fst_pair in Es. subst s2. cbn [fst]. eapply allq_same_queues; [apply queues_send_error|exact H].
 Qed.
 
+Lemma QI_apply_err_st cfg fx opened s c h r : fx_delete_checks_first fx = true -> QI (fst (fst r)) -> QI (fst (apply_err_st cfg fx opened s c h r)).
+Proof.
+  intros Hfx H. unfold apply_err_st. destruct opened; [apply QI_apply_err; auto|].
+  destruct (snd r) as [[| ]|]; try (apply QI_apply_err; auto).
+  pose proof (QI_apply_err s c h r H) as H1. destruct (apply_err s c h r) as [s1 e1]. cbn [fst] in H1.
+  pose proof (QI_conn_close cfg fx s1 c Hfx H1) as H2. destruct (conn_close cfg fx s1 c) as [s2 e2]. exact H2.
+Qed.
+
 Theorem QI_step cfg fx s l : fx_delete_checks_first fx = true -> QI s -> QI (fst (step cfg fx s l)).
 Proof.
   intros Hfx H. destruct l; cbn [step].
   - (* LConnect *) destruct (get_conn s c); cbn [fst]; sq.
   - (* LMethod *)
-    destruct (get_conn s c); [|exact H].
+    destruct (get_conn s c) as [cn0|]; [|exact H].
+    destruct (negb _ && negb _)%bool; [apply QI_conn_close; auto|].
     assert (H0 : QI (ensure_chan s c h)) by sq.
     destruct m.
     all: try (repeat match goal with |- context [if ?b then _ else _] => destruct b end;
-              first [ exact H0 | apply QI_apply_err; first [ apply QI_handle_method; auto | exact H0 ] ]).
+              first [ exact H0 | apply QI_apply_err; first [ apply QI_handle_method; auto | exact H0 ] | apply QI_apply_err_st; auto; first [ apply QI_handle_method; auto | exact H0 ] ]).
     + (* MConnClose *)
       destruct (fx_stage fx && negb (h =? 0)); [apply QI_apply_err; exact H0|].
       pose proof (QI_conn_close cfg fx _ c Hfx H0) as Hc.
@@ -386,23 +398,25 @@ Proof.
       destruct (fx_stage fx && negb (h =? 0)); [apply QI_apply_err; exact H0|].
       apply QI_conn_close; auto.
   - (* LHeader *)
-    destruct (get_conn s c); [|exact H].
+    destruct (get_conn s c) as [cn0|]; [|exact H].
+    destruct (negb _ && negb _)%bool; [apply QI_conn_close; auto|].
     assert (H0 : QI (ensure_chan s c h)) by sq.
     destruct (get_chan _ c h) as [ch|]; [|exact H0].
     destruct (_ && _)%bool; [exact H0|].
-    destruct (ch_cur ch) as [u|]; [|apply QI_apply_err; exact H0].
+    destruct (ch_cur ch) as [u|]; [|apply QI_apply_err_st; auto].
     destruct (get_msg _ u) as [m|]; [|exact H0].
-    destruct (m_has_header m); [apply QI_apply_err; exact H0|].
+    destruct (m_has_header m); [apply QI_apply_err_st; auto|].
     destruct (_ && _)%bool; [apply QI_finish_publish|]; sq.
   - (* LBody *)
-    destruct (get_conn s c); [|exact H].
+    destruct (get_conn s c) as [cn0|]; [|exact H].
+    destruct (negb _ && negb _)%bool; [apply QI_conn_close; auto|].
     assert (H0 : QI (ensure_chan s c h)) by sq.
     destruct (get_chan _ c h) as [ch|]; [|exact H0].
     destruct (_ && _)%bool; [exact H0|].
-    destruct (ch_cur ch) as [u|]; [|apply QI_apply_err; exact H0].
+    destruct (ch_cur ch) as [u|]; [|apply QI_apply_err_st; auto].
     destruct (get_msg _ u) as [m|]; [|exact H0].
-    destruct (negb (m_has_header m)); [apply QI_apply_err; exact H0|].
-    destruct (_ <? _); [apply QI_apply_err; cbn [fst]; sq|].
+    destruct (negb (m_has_header m)); [apply QI_apply_err_st; auto|].
+    destruct (_ <? _); [apply QI_apply_err_st; auto; cbn [fst]; sq|].
     destruct (_ <? _); [|apply QI_finish_publish]; sq.
   - (* LConsumerTurn *) apply QI_consumer_turn; auto.
   - (* LQueueLoop *) cbn [fst]. apply QI_queue_loop_turn; auto.
@@ -426,6 +440,7 @@ Proof.
   - (* LSocketLoss *)
     pose proof (QI_conn_close cfg fx s c Hfx H) as Hc.
     destruct (conn_close cfg fx s c) as [s1 e1]. exact Hc.
+  - (* LAccept *) destruct (get_conn s c); cbn [fst]; sq.
 Qed.
 
 Lemma QI_init cfg : QI (init cfg).
